@@ -238,8 +238,12 @@ impl<'a> ValidationContext<'a> {
     fn new_with_next_block_headers(state: &'a State, header: &Header) -> (r: Result<ValidationContext<'a>, ValidationContextError>) { unimplemented!() }
 }
 impl UnstableBlocks {
-    #[verifier::external_body]
-    fn has_next_block_header(&self, block_header: &Header) -> (r: bool) { unimplemented!() }
+// C20: "already announced?" is a lookup of the header's own hash in the announced headers
+//@extract file=canister/src/unstable_blocks.rs in="impl UnstableBlocks" item="fn has_next_block_header" props=C10,C20
+//@ ret r
+//@ spec
+//@| ensures r == self.next_block_headers@.contains_key(header_hash(*block_header)),
+//@end
     // [trusted:assumed-contract] UnstableBlocks::block_depth (unstable_blocks.rs:212; `find_mut` returns `&mut`, outside Verus — it only
     // reads): the number of edges from the anchor to the block, an error iff the block is not in the tree
     #[verifier::external_body]
@@ -259,7 +263,11 @@ impl UnstableBlocks {
 //@|     stable_height as int + old(self).tree.sdepth() + 0x10_0000 < u32::MAX,
 //@|     old(self).next_block_headers.heights_below(u32::MAX - 1),
 //@|     old(self).tree.wf_depth(),
+//@|     old(self).next_block_headers.wf(),
+//@|     // C20: the header is not announced yet (state::insert_next_block_headers skips announced headers before calling this)
+//@|     !old(self).next_block_headers@.contains_key(header_hash(block_header)),
 //@| ensures
+//@|     final(self).next_block_headers.wf(),
 //@|     // the new height is at most one above the greatest height known before (announced or in the tree)
 //@|     forall|b: int| old(self).next_block_headers.heights_below(b) && stable_height + old(self).tree.sdepth() <= b ==> final(self).next_block_headers.heights_below(b + 1),
 //@|     final(self).tree == old(self).tree, final(self).stability_threshold == old(self).stability_threshold, final(self).network == old(self).network,
@@ -269,22 +277,38 @@ impl UnstableBlocks {
 //@|         let parent = BlockHash(block_header.prev_blockhash.0);
 //@|         let announced = old(self).next_block_headers.height_of_spec(parent);
 //@|         &&& r.is_err() <==> (announced is None && !old(self).tree.contains(parent))
-//@|         &&& r.is_err() ==> final(self).next_block_headers.announced@ == old(self).next_block_headers.announced@
-//@|         &&& r.is_ok() ==> final(self).next_block_headers.announced@ == old(self).next_block_headers.announced@.push((block_header,
-//@|                 ((match announced { Some(p) => p as int, None => stable_height + old(self).tree.idx_path_to(parent).len() }) + 1) as Height))
+//@|         &&& r.is_err() ==> final(self).next_block_headers@ == old(self).next_block_headers@
+//@|         &&& r.is_ok() ==> final(self).next_block_headers@ == old(self).next_block_headers@.insert(header_hash(block_header), (
+//@|                 ((match announced { Some(p) => p as int, None => stable_height + old(self).tree.idx_path_to(parent).len() }) + 1) as Height, block_header))
 //@|     }),
 //@ before "stable_height + depth"
 //@| proof { old(self).tree.lemma_idx_path_len_le_depth(prev_block_hash); }
+//@ finish ret=1
+//@| proof {
+//@|     assert forall|b: int| old(self).next_block_headers.heights_below(b) && stable_height + old(self).tree.sdepth() <= b implies self.next_block_headers.heights_below(b + 1) by {
+//@|         assert forall|h: BlockHash| ((#[trigger] self.next_block_headers.height_of_spec(h)) matches Some(x) ==> x < b + 1) by {
+//@|             if h != header_hash(block_header) { assert(self.next_block_headers.height_of_spec(h) == old(self).next_block_headers.height_of_spec(h)); }
+//@|             else { let vp_parent = BlockHash(block_header.prev_blockhash.0); assert(old(self).next_block_headers.height_of_spec(vp_parent) is Some ==> old(self).next_block_headers.height_of_spec(vp_parent).unwrap() < b); }
+//@|         }
+//@|     }
+//@| }
 //@end
 }
 // ghost bookkeeping only: one more batch of announced headers has been offered (no run-time counterpart)
-#[verifier::external_body]
 fn vp_note_offered(n: &mut NextBlockHeaders)
     ensures
-        final(n).offered@ == old(n).offered@ + 1, final(n).announced@ == old(n).announced@,
-        forall|h: BlockHash| final(n).height_of_spec(h) == old(n).height_of_spec(h),
-        final(n).max_height_spec() == old(n).max_height_spec(),
-{ }
+        final(n).offered@ == old(n).offered@ + 1,
+        final(n).hash_to_height_and_header == old(n).hash_to_height_and_header, final(n).height_to_hash == old(n).height_to_hash,
+        final(n)@ == old(n)@, final(n).wf() == old(n).wf(),
+        forall|b: int| old(n).heights_below(b) ==> final(n).heights_below(b),
+{
+    n.offered = Ghost(n.offered@ + 1);
+    proof {
+        assert forall|b: int| old(n).heights_below(b) implies n.heights_below(b) by {
+            assert forall|h: BlockHash| ((#[trigger] n.height_of_spec(h)) matches Some(x) ==> x < b) by { assert(n.height_of_spec(h) == old(n).height_of_spec(h)); }
+        }
+    }
+}
 //@extract file=canister/src/state.rs item="fn insert_next_block_headers" props=C10,C13
 //@ rewrite R4 "for block_header_blob in next_block_headers\.iter\(\) \{" => "let mut vp_i: usize = 0;\n    while vp_i < next_block_headers.len() {\n        let block_header_blob = &next_block_headers[vp_i];\n        vp_i = vp_i + 1;"
 //@ rewrite R10 "let validation_result =\s*(ValidationContext::new_with_next_block_headers\(state, &block_header\))\s*\.map_err\(\|e\| vp_format\(\)\)\s*\.and_then\(\|store\| \{(.*?)\n                \}\);" => "let validation_result: Result<(), String> = match \1 { Err(e) => Err(vp_format()), Ok(store) => {\2\n                } };"
@@ -295,8 +319,10 @@ fn vp_note_offered(n: &mut NextBlockHeaders)
 //@|     old(state).unstable_blocks.tree.wf_depth(),
 //@|     old(state).utxos.next_height as int + old(state).unstable_blocks.tree.sdepth() <= 0x7fff_0000,
 //@|     old(state).unstable_blocks.next_block_headers.heights_below(0x7fff_0000),
+//@|     old(state).unstable_blocks.next_block_headers.wf(),
 //@|     next_block_headers@.len() < 0x1_0000,
 //@| ensures
+//@|     final(state).unstable_blocks.next_block_headers.wf(),
 //@|     // only the announced headers inside unstable_blocks are touched: never the tree, the UTXO set, the header store or the syncing state
 //@|     final(state).unstable_blocks.tree == old(state).unstable_blocks.tree,
 //@|     final(state).utxos == old(state).utxos,
@@ -312,6 +338,7 @@ fn vp_note_offered(n: &mut NextBlockHeaders)
 //@|     state.unstable_blocks.tree.wf_depth(),
 //@|     state.utxos.next_height as int + state.unstable_blocks.tree.sdepth() <= 0x7fff_0000,
 //@|     state.unstable_blocks.next_block_headers.heights_below(0x7fff_0000 + vp_i),
+//@|     state.unstable_blocks.next_block_headers.wf(),
 //@|     state.unstable_blocks.tree == old(state).unstable_blocks.tree,
 //@|     state.utxos == old(state).utxos,
 //@|     state.stable_block_headers == old(state).stable_block_headers,
